@@ -191,6 +191,15 @@ func (w *world) fail(prop, rule, f string, a ...interface{}) {
 			panic(failure{&Fail{Prop: p, Rule: rule, Step: w.step, Msg: msg}})
 		}
 	}
+	// C07: "the replacement takes over the channel (its bound keys, active streams and position)": once a swap
+	// happened in this history, routing/accounting/rotation rules also speak for C07
+	if w.anySwap && w.o.Props["C07"] {
+		for _, p := range alts {
+			if p == "C01" || p == "C02" || p == "C09" {
+				panic(failure{&Fail{Prop: "C07", Rule: p + ":" + rule + " (after a refresh swap)", Step: w.step, Msg: msg}})
+			}
+		}
+	}
 	for _, p := range alts {
 		if al := w.o.Alias[p]; al != "" && w.o.Props[al] {
 			panic(failure{&Fail{Prop: al, Rule: p + ":" + rule, Step: w.step, Msg: msg}})
